@@ -284,6 +284,7 @@ def run(tier):
     nhist = 80 if thorough else 12
     from . import c12
     ndocs = 0
+    hist_texts = []
     for h in range(nhist):
         n = rnd.randrange(3, 9) if thorough else rnd.randrange(3, 6)
         docs = []
@@ -361,6 +362,9 @@ def run(tier):
                                   {'history': [{'prelude': prelude}] + [{'map': d[0], 'loop_id': d[2], 'document': d[1], 'settings': None} for j, d in enumerate(docs[:i + 1])],
                                    'call': 'harness.c18.observe(document, params(), loop_id) after the prelude run (params(config file) / map_path=private directory); compare with a fresh interpreter',
                                    'observed': {k: repr(got.get(k))[:600] for k in diff}, 'required': {k: repr(want.get(k))[:600] for k in diff}})
+        for d in docs:
+            if len(d[1]) < 20000 and len(hist_texts) < (150 if thorough else 30) and d[1].isascii():
+                hist_texts.append(d[1])
         if len(res.cov['samples']) < 3:
             res.sample({'history': [(d[0], d[2], len(d[1])) for d in docs], 'prelude': prelude})
     cells_after = default_cells(mods)
@@ -375,6 +379,11 @@ def run(tier):
             # decided by the histories above (different settings for the same map in one process)
             res.broke('correspondence:Globals.module-containers', 'module-level container %s changed during the histories: %s -> %s' % (
                 k, before.get(k, '<absent>')[:120], (after.get(k) or '')[:120]))
+    if built:
+        # the documents of the histories once more, in THIS process (after everything above ran in it), against the pure
+        # end-to-end model (Props/C18Doc.lean: a session is the map of validateDoc over the requests)
+        from . import doc as docmod
+        docmod.attach(res, hist_texts, 'after-histories', audit=False)
     cafter = class_containers(mods)
     for k in sorted(set(cbefore) | set(cafter)):
         if cafter.get(k) != cbefore.get(k, '<absent>'):
